@@ -15,7 +15,7 @@ RULE = ('Per history: (seed | mnemonic | xprv) x network (11) x witness type; op
         'keys_for_path(number_of_keys=k), reopen; final restore in fresh databases from the seed, the mnemonic, the '
         'master xprv (replaying the requests) and watch-only from the account xpub. [wallets with a non-zero default account, set_default_account, read-only requests (public_master, wif, account, keys) between key requests] Non-trivial = >=2 accounts, or '
         'mixed witness types, or a bulk creation followed by reopen; every restore comparison counts; distinct by '
-        'history.')
+        'history. [plus a wallet made from the account PRIVATE key: the key requests replayed on it are refused or match the reference derivation for the requested witness type, indices never repeat]')
 ASSUMPTIONS = ['ref/bip32.py, ref/bip39.py, ref/address.py', 'SQLite only',
                'single-signature HD wallets (multisig paths are exercised by C10)']
 SHARDS = {'quick': 16, 'thorough': 16}
@@ -190,6 +190,66 @@ def _run_case_inner(ctx, case):
                 ctx.klass('restore.watchonly')
         finally:
             wu.close_wallet(w3)
+        # ---- wallet made from the account PRIVATE key ------------------------------------------------------
+        # it can derive change/index below its own account only: keys of another witness type lie below another
+        # hardened purpose level, so a request for them is either refused or - if answered - must give the key at the
+        # documented path of THAT witness type; new keys never repeat an index
+        from ref import bip32
+        from ref import address as raddr
+        net = case['network']
+        acc_path = [HARD + PURPOSE[wt], HARD + wu.coin_type(net), HARD + acc_wo]
+        try:
+            akey = bip32.derive(master, acc_path)
+            uri4, path4 = wu.db_uri(tag + '-ak')
+            paths.append(path4)
+            w4 = Wallet.create('ak', keys=akey.xkey(raddr.xkey_version(net, True, wt, False)), network=net,
+                               witness_type=wt, db_uri=uri4)
+        except Exception as e:
+            ctx.refusal('accountkey.create.%s' % type(e).__name__)
+            return flags
+        try:
+            issued = set()
+            n_req = 0
+            for op in case['ops']:
+                if op['op'] not in ('new_key', 'new_key_change', 'get_key', 'get_keys') or n_req >= 8:
+                    continue
+                n_req += 1
+                want_wt = op.get('wt') or wt
+                change = 1 if op['op'] == 'new_key_change' else op.get('change', 0)
+                try:
+                    if op['op'] == 'new_key_change':
+                        ks = [w4.new_key_change(witness_type=op.get('wt'))]
+                    elif op['op'] == 'new_key':
+                        ks = [w4.new_key(change=change, witness_type=op.get('wt'))]
+                    elif op['op'] == 'get_key':
+                        ks = [w4.get_key(change=change, witness_type=op.get('wt'))]
+                    else:
+                        ks = w4.get_keys(number_of_keys=op['count'], change=change, witness_type=op.get('wt'))
+                    fields = [(k.address, k.address_index, k.change, k.path, k.key().private_hex) for k in ks]
+                except Exception as e:
+                    ctx.klass('accountkey.refused.other_witness_type' if want_wt != wt else 'accountkey.refused.own')
+                    if want_wt == wt:
+                        ctx.refusal('accountkey.%s.%s' % (op['op'], type(e).__name__))
+                    continue
+                for addr, idx, chg, kpath, sec in fields:
+                    ref_key = bip32.derive(master, [HARD + PURPOSE[want_wt], HARD + wu.coin_type(net), HARD + acc_wo,
+                                                    change, idx])
+                    want_addr = wu.key_address(ref_key.pub, want_wt, net)
+                    if addr != want_addr or chg != change or sec is None or int(sec, 16) != ref_key.secret:
+                        raise Discrepancy('accountkey.address:' + ('other_wt' if want_wt != wt else 'own'),
+                                          'wallet made from the account private key of %s: %s(witness_type=%r, change=%d) '
+                                          'returned %s (%s, index %r, change %r); the %s key at index %r of this account '
+                                          'is %s' % (wu.path_str(acc_path), op['op'], op.get('wt'), change, addr, kpath,
+                                                     idx, chg, want_wt, idx, want_addr), case)
+                    if op['op'].startswith('new_key') and (want_wt, change, idx) in issued:
+                        raise Discrepancy('accountkey.index_repeated', '%s returned index %d of chain (%s, change %d) a '
+                                          'second time' % (op['op'], idx, want_wt, change), case)
+                    issued.add((want_wt, change, idx))
+                ctx.klass('accountkey.key_checked.' + ('other_wt' if want_wt != wt else 'own'))
+            if n_req:
+                flags.add('account_key_wallet')
+        finally:
+            wu.close_wallet(w4)
         return flags
     finally:
         wu.close_wallet(w)
